@@ -128,3 +128,65 @@ Lemma bool_octets_spec (b : bool) : bool_octets b = [if b then xff else x00].
 Proof. reflexivity. Qed.
 Print Assumptions c07_int_shortest_repaired.
 Print Assumptions c07_int_refuted_m129.
+
+(* ---------- uniqueness: the shortest two's-complement octets of a value are unique, so int_octets z is THE canonical content ---------- *)
+Lemma twos_range bs : bs <> [] -> - 256 ^ Z.of_nat (length bs) <= 2 * twos bs < 256 ^ Z.of_nat (length bs).
+Proof.
+  destruct bs as [|b l]; [congruence|]. intros _. unfold twos. rewrite be_val_cons. cbn [length]. rewrite Nat2Z.inj_succ, Z.pow_succ_r by lia.
+  pose proof (be_val_bound l). pose proof (bZ_range b). assert (0 < 256 ^ Z.of_nat (length l)) by (apply Z.pow_pos_nonneg; lia).
+  destruct (Z.leb_spec 128 (bZ b)); nia.
+Qed.
+Lemma shortest_outside b0 b1 r : shortest (b0 :: b1 :: r) ->
+  256 ^ Z.of_nat (length (b1 :: r)) <= 2 * twos (b0 :: b1 :: r) \/ 2 * twos (b0 :: b1 :: r) < - 256 ^ Z.of_nat (length (b1 :: r)).
+Proof.
+  cbn [shortest]. unfold redundant. intros H. apply orb_false_elim in H as [H1 H2].
+  unfold twos. rewrite (be_val_cons b0), (be_val_cons b1). cbn [length]. rewrite !Nat2Z.inj_succ, !Z.pow_succ_r by lia.
+  pose proof (be_val_bound r). pose proof (bZ_range b0). pose proof (bZ_range b1). assert (0 < 256 ^ Z.of_nat (length r)) by (apply Z.pow_pos_nonneg; lia).
+  apply andb_false_iff in H1. apply andb_false_iff in H2.
+  destruct (Z.leb_spec 128 (bZ b0)).
+  - (* negative: b0 >= 128; redundant iff b0 = 255 and b1 >= 128 *)
+    right. destruct H2 as [H2|H2]; [apply Z.eqb_neq in H2; nia|apply Z.leb_gt in H2; nia].
+  - left. destruct H1 as [H1|H1]; [apply Z.eqb_neq in H1; nia|apply Z.ltb_ge in H1; nia].
+Qed.
+Lemma be_val_inj : forall a b, length a = length b -> be_val a = be_val b -> a = b.
+Proof.
+  induction a as [|x a IH]; intros [|y b] L E; try discriminate; [reflexivity|]. injection L as L.
+  rewrite !be_val_cons, L in E. pose proof (be_val_bound a). pose proof (be_val_bound b). rewrite L in *.
+  pose proof (bZ_range x). pose proof (bZ_range y). assert (0 < 256 ^ Z.of_nat (length b)) by (apply Z.pow_pos_nonneg; lia).
+  assert (bZ x = bZ y) by nia. assert (be_val a = be_val b) by nia.
+  f_equal; [|now apply IH]. unfold bZ in *. assert (En : Byte.to_N x = Byte.to_N y) by lia.
+  assert (Es : Some x = Some y) by (rewrite <- (Byte.of_to_N x), <- (Byte.of_to_N y); now rewrite En). now injection Es.
+Qed.
+Lemma twos_inj_same_length a b : a <> [] -> length a = length b -> twos a = twos b -> a = b.
+Proof.
+  intros Ha L E. destruct a as [|x a]; [congruence|]. destruct b as [|y b]; [discriminate|].
+  apply be_val_inj; [exact L|]. unfold twos in E. rewrite L in E.
+  pose proof (be_val_bound (x :: a)). pose proof (be_val_bound (y :: b)). rewrite L in *.
+  rewrite (be_val_cons x) in *. rewrite (be_val_cons y) in *. injection L as L. rewrite L in *.
+  pose proof (be_val_bound a). pose proof (be_val_bound b). rewrite L in *.
+  pose proof (bZ_range x). pose proof (bZ_range y). cbn [length] in *. rewrite Nat2Z.inj_succ, Z.pow_succ_r in * by lia.
+  assert (0 < 256 ^ Z.of_nat (length b)) by (apply Z.pow_pos_nonneg; lia).
+  destruct (Z.leb_spec 128 (bZ x)), (Z.leb_spec 128 (bZ y)); nia.
+Qed.
+Lemma shortest_length_unique a b : shortest a -> shortest b -> twos a = twos b -> length a = length b.
+Proof.
+  assert (P : forall n m : nat, (n < m)%nat -> 256 ^ Z.of_nat (S n) <= 256 ^ Z.of_nat m).
+  { intros n m H. apply Z.pow_le_mono_r; lia. }
+  intros Sa Sb E.
+  destruct (Nat.lt_trichotomy (length a) (length b)) as [H|[H|H]]; [|exact H|]; exfalso.
+  - destruct b as [|b0 [|b1 r]]; [exact Sb|destruct a; [exact Sa|cbn in H; lia]|].
+    assert (Ha : a <> []) by (destruct a; [destruct Sa|discriminate]).
+    pose proof (twos_range a Ha). destruct (shortest_outside _ _ _ Sb) as [O|O]; rewrite <- E in O;
+      assert (256 ^ Z.of_nat (length a) <= 256 ^ Z.of_nat (length (b1 :: r))) by (apply Z.pow_le_mono_r; cbn [length] in *; lia); lia.
+  - destruct a as [|a0 [|a1 r]]; [exact Sa|destruct b; [exact Sb|cbn in H; lia]|].
+    assert (Hb : b <> []) by (destruct b; [destruct Sb|discriminate]).
+    pose proof (twos_range b Hb). destruct (shortest_outside _ _ _ Sa) as [O|O]; rewrite E in O;
+      assert (256 ^ Z.of_nat (length b) <= 256 ^ Z.of_nat (length (a1 :: r))) by (apply Z.pow_le_mono_r; cbn [length] in *; lia); lia.
+Qed.
+Theorem c07_int_canonical z bs : - 2^63 <= z < 2^63 -> shortest bs -> twos bs = z -> bs = int_octets z.
+Proof.
+  intros Hz Sb Hv. destruct (c07_int_shortest_repaired z Hz) as [Hi Si].
+  assert (L : length bs = length (int_octets z)) by (apply shortest_length_unique; [assumption|assumption|congruence]).
+  apply twos_inj_same_length; [destruct bs; [destruct Sb|discriminate]|exact L|congruence].
+Qed.
+Print Assumptions c07_int_canonical.
